@@ -18,7 +18,7 @@ PROP = dict(
              "liquidity: borrow marked liquidated, then the collateral transfer fails; a smaller borrow of the same sweep succeeds), "
              "v2.surplusdebt (English auctions off: lot taken from the collector, then the auction is refused), v2.auction (English surplus "
              "auction with a bid past its end, app without token-mint record: lot and bid moved, then the burn fails), v2.limitbid (two limit "
-             "bids at one premium: the first closes the auction, the second fails on the stale auction), rewards.hook (two locker reward "
+             "bids at one premium of an under-collateralised auction with a tiny app reserve: the first (a quarter of the debt) is filled, the second (twice the debt) - placed on the auction as the first left it (fixes/C10-F6) - runs out of collateral and fails on the reserve), rewards.hook (two locker reward "
              "programmes, kill switch on the later one's app: first programme paid, then the step fails), esm.hook (vault app under shutdown "
              "with a vault whose debt asset has neither rate nor snapshot: earlier vaults moved and deleted, then the step fails); "
              "non-trivial = the hook changed state (env case), performed store accesses (crash case) or a unit reported failure after "
